@@ -313,6 +313,7 @@ enum Tag
     T_normal_singular,
     T_sense_checked,
     T_cancel_small_root,
+    T_on_contract,
     T_COUNT
 };
 static char const* const tag_names[T_COUNT] = {
@@ -344,6 +345,7 @@ static char const* const tag_names[T_COUNT] = {
     "normal:singular-skipped",
     "sense:checked",
     "solver:small-root-cancellation",
+    "on-surface:only-other-root-checked",
 };
 
 struct Ctx
@@ -645,6 +647,45 @@ struct RayChecker
             cx.tag(nfinite ? T_on_root : T_on_none);
         else
             cx.tag(nfinite == 2 ? T_two_roots : nfinite == 1 ? T_one_root : T_no_root);
+
+        // --- contract of SurfaceState::on (QuadraticSolver::operator()(), Plane*, solve_general):
+        // the start point's own root (t = 0 up to rounding) is NOT reported; what may come back is
+        // at most ONE distance, the other root -2 hb / a of a t^2 + 2 hb t = 0 (nothing at all for
+        // planes, along the surface |a| < 1e-10, and for axis-parallel rays of a cylinder).
+        // Rounding of the code's -2 * (hb * (1/a)): hb and a are sums of products (model: KT eps
+        // hbm, KT eps am), two more roundings for 1/a and the product:
+        //    |d - d_exp| <= KT eps (2 hbm/|a| + 2 |hb| am / a^2) + 8 eps |d_exp|
+        // A self hit is the root c/(2 hb) = O(eps M / |hb|) of the start point itself: it shows up as
+        // a second distance or as a distance that is not the other root.
+        if (on && nfinite > 0)
+        {
+            cx.tag(T_on_contract);
+            char const* why = nullptr;
+            ld dexp = 0, told = 0;
+            if (nfinite > 1)
+                why = "more than one distance returned";
+            else if (reg == reg_linear)
+                why = "a plane returned a distance";
+            else if (reg == reg_along || reg == reg_cylaxis)
+                why = "a distance returned although the ray runs along the surface";
+            else
+            {
+                dexp = -2 * r.hb / r.a;
+                told = KT * EPS * (2 * r.hbm / fabsl(r.a) + 2 * fabsl(r.hb) * r.am / (r.a * r.a))
+                       + 8 * EPS * fabsl(dexp);
+                if (!(fabsl(dmin - dexp) <= told) && std::isfinite((double)dmin))
+                    why = "the returned distance is not the other root -2hb/a";
+            }
+            if (why)
+            {
+                cx.viol(std::string(q.sig) + ":on-surface-self-hit", cid, [&] {
+                    return ctx_str(p, u, on)
+                           + fmt(" %s: returned (%s%s%s), other root -2hb/a=%.18Lg (+-%Lg) (a=%Lg hb=%Lg c=%Lg)",
+                                 why, vf::dstr(res[0]).c_str(), N > 1 ? "," : "",
+                                 N > 1 ? vf::dstr(res[N - 1]).c_str() : "", dexp, told, r.a, r.hb, r.c);
+                });
+            }
+        }
 
         // --- no nearer positive crossing
         if (disc_ok || reg == reg_along)
